@@ -138,7 +138,9 @@ func c04rRun(sc *C04RScenario) (res *txHistResult) {
 			if i, ok := idOf[*td.Msg.TxHash()]; ok {
 				bodySeen[i] = true
 			}
-			if err := sn.node.processUnconfirmedTx(sn.ctx, td); err != nil {
+			var err error
+			guard("processUnconfirmedTx", func() { err = sn.node.processUnconfirmedTx(sn.ctx, td) })
+			if err != nil {
 				sn.txThreadDead = err.Error()
 			}
 			sn.drain()
